@@ -20,6 +20,7 @@ import (
 	"strings"
 
 	sdkmath "cosmossdk.io/math"
+	abci "github.com/cometbft/cometbft/abci/types"
 	"github.com/cosmos/cosmos-sdk/store/prefix"
 	sdk "github.com/cosmos/cosmos-sdk/types"
 	stakingtypes "github.com/cosmos/cosmos-sdk/x/staking/types"
@@ -44,6 +45,7 @@ type c04Asset struct {
 	ID      string
 	Dec     uint32
 	TokenID uint64 // 0 = unknown to the oracle
+	Chain   uint64 // client chain (LayerZero) id
 }
 
 type c04World struct {
@@ -53,27 +55,34 @@ type c04World struct {
 }
 
 var c04AssetSpecs = []struct {
-	addr string
-	dec  uint32
-	tok  uint64
+	addr  string
+	dec   uint32
+	tok   uint64
+	chain uint64
 }{
-	{"0xdAC17F958D2ee523a2206206994597C13D831ec7", 6, 1},
-	{"0xa0b86991c6218b36c1d19d4a2e9eb0ce3606eb48", 18, 2},
-	{"0x1111111111111111111111111111111111111111", 0, 3},
-	{"0x2222222222222222222222222222222222222222", 8, 4},
-	{"0x3333333333333333333333333333333333333333", 2, 0},
+	{"0xdAC17F958D2ee523a2206206994597C13D831ec7", 6, 1, 101},
+	{"0xa0b86991c6218b36c1d19d4a2e9eb0ce3606eb48", 18, 2, 101},
+	{"0x1111111111111111111111111111111111111111", 0, 3, 101},
+	{"0x2222222222222222222222222222222222222222", 8, 4, 101},
+	{"0x3333333333333333333333333333333333333333", 2, 0, 101},
+	// the SAME token contract on a second client chain whose hex id (0x6) is a prefix of the first one's (0x65): asset ids
+	// <addr>_0x6 and <addr>_0x65, each with its own oracle token and price
+	{"0xdAC17F958D2ee523a2206206994597C13D831ec7", 4, 5, 6},
 }
 
 func c04NewWorld(ops []OperatorCfg) *c04World {
 	w := &c04World{}
 	for _, s := range c04AssetSpecs {
 		a := common.HexToAddress(s.addr)
-		_, id := assetstypes.GetStakerIDAndAssetID(101, nil, a.Bytes())
-		w.Assets = append(w.Assets, c04Asset{Addr: a, ID: id, Dec: s.dec, TokenID: s.tok})
+		_, id := assetstypes.GetStakerIDAndAssetID(s.chain, nil, a.Bytes())
+		w.Assets = append(w.Assets, c04Asset{Addr: a, ID: id, Dec: s.dec, TokenID: s.tok, Chain: s.chain})
 	}
 	mut := func(app *exocoreapp.ExocoreApp, gs map[string]json.RawMessage) {
 		var ag assetstypes.GenesisState
 		app.AppCodec().MustUnmarshalJSON(gs[assetstypes.ModuleName], &ag)
+		ag.ClientChains = append(ag.ClientChains, assetstypes.ClientChainInfo{
+			Name: "short", MetaInfo: "chain whose hex id is a prefix of 0x65", ChainId: 6, FinalizationBlocks: 10, LayerZeroChainID: 6, AddressLength: 20,
+		})
 		for i, a := range w.Assets {
 			if i == 0 {
 				continue
@@ -81,7 +90,7 @@ func c04NewWorld(ops []OperatorCfg) *c04World {
 			ag.Tokens = append(ag.Tokens, assetstypes.StakingAssetInfo{
 				AssetBasicInfo: assetstypes.AssetInfo{
 					Name: fmt.Sprintf("Asset%d", i), Symbol: fmt.Sprintf("AS%d", i), Address: strings.ToLower(a.Addr.Hex()),
-					Decimals: a.Dec, LayerZeroChainID: 101, MetaInfo: "verif asset",
+					Decimals: a.Dec, LayerZeroChainID: a.Chain, MetaInfo: "verif asset",
 				},
 				StakingTotalAmount: sdkmath.ZeroInt(),
 			})
@@ -127,6 +136,37 @@ func (w *c04World) opIdx(addr string) int {
 		}
 	}
 	return -1
+}
+
+// oraclePrice is the price the property means for an asset: the latest round of the oracle token that the oracle params bind to
+// EXACTLY this asset id (own resolution: comma-split + equality over params.Tokens read from the store), read from the oracle
+// price store; no round / non-positive price => the default price 1 with 0 decimals ("default"); no token => "missing".
+// It deliberately does not call GetSpecifiedAssetsPrice / GetMultipleAssetsPrices / Params.GetTokenIDFromAssetID.
+func (w *c04World) oraclePrice(ctx sdk.Context, assetID string) (class string, price string, pdec int64) {
+	params := w.Env.App.OracleKeeper.GetParams(ctx)
+	tokenID := 0
+	for id, t := range params.Tokens {
+		if id == 0 || t == nil {
+			continue
+		}
+		for _, x := range strings.Split(t.AssetID, ",") {
+			if x == assetID && tokenID == 0 {
+				tokenID = id
+			}
+		}
+	}
+	if tokenID == 0 {
+		return "missing", "0", 0
+	}
+	tr, found := w.Env.App.OracleKeeper.GetPriceTRLatest(ctx, uint64(tokenID))
+	if !found {
+		return "default", "1", 0
+	}
+	v, ok := new(big.Int).SetString(tr.Price, 10)
+	if !ok || v.Sign() <= 0 {
+		return "default", "1", 0
+	}
+	return "ok", v.String(), int64(uint8(tr.Decimal))
 }
 
 func (w *c04World) setPrice(ctx sdk.Context, ai int, price string, dec int32, found bool) {
@@ -527,19 +567,7 @@ func (w *c04World) observeEnv(ctx sdk.Context, ids *c04IDs, avss []string) c04En
 	e := c04Env{Height: ctx.BlockHeight(), DogAvs: -1}
 	for i, a := range w.Assets {
 		ai := c04AInfo{ID: i, Price: "0"}
-		p, err := app.OracleKeeper.GetSpecifiedAssetsPrice(ctx, a.ID)
-		switch {
-		case err == nil:
-			ai.Class = "ok"
-		case oracletypes.ErrGetPriceRoundNotFound.Is(err):
-			ai.Class = "default"
-		default:
-			ai.Class = "missing"
-		}
-		if ai.Class != "missing" {
-			ai.Price = intZ(p.Value)
-			ai.PDec = int64(p.Decimal)
-		}
+		ai.Class, ai.Price, ai.PDec = w.oraclePrice(ctx, a.ID)
 		info, err := app.AssetsKeeper.GetStakingAssetInfo(ctx, a.ID)
 		if err == nil {
 			ai.Known = true
@@ -618,7 +646,7 @@ func (g *c04Gen) buildLedger(ctx sdk.Context, target int, undelHeights []int64) 
 			}
 			amt := g.amount(g.w.Assets[ai].Dec)
 			err := app.AssetsKeeper.PerformDepositOrWithdraw(ctx, &assetskeeper.DepositWithdrawParams{
-				ClientChainLzID: 101, Action: assetstypes.DepositLST, StakerAddress: g.stakerAddr(s).Bytes(), OpAmount: amt, AssetsAddress: g.w.Assets[ai].Addr.Bytes(),
+				ClientChainLzID: g.w.Assets[ai].Chain, Action: assetstypes.DepositLST, StakerAddress: g.stakerAddr(s).Bytes(), OpAmount: amt, AssetsAddress: g.w.Assets[ai].Addr.Bytes(),
 			})
 			if err != nil {
 				panic(fmt.Sprintf("deposit: %v", err))
@@ -640,7 +668,7 @@ func (g *c04Gen) buildLedger(ctx sdk.Context, target int, undelHeights []int64) 
 				}
 				g.nonce++
 				err := app.DelegationKeeper.DelegateTo(ctx.WithBlockHeight(h), &delegationtypes.DelegationOrUndelegationParams{
-					ClientChainID: 101, AssetsAddress: g.w.Assets[ai].Addr.Bytes(), OperatorAddress: g.w.Env.Operators[op], StakerAddress: g.stakerAddr(s).Bytes(),
+					ClientChainID: g.w.Assets[ai].Chain, AssetsAddress: g.w.Assets[ai].Addr.Bytes(), OperatorAddress: g.w.Env.Operators[op], StakerAddress: g.stakerAddr(s).Bytes(),
 					OpAmount: d, LzNonce: g.nonce, TxHash: g.txHash(),
 				})
 				if err != nil {
@@ -691,7 +719,7 @@ func (g *c04Gen) buildLedger(ctx sdk.Context, target int, undelHeights []int64) 
 		}
 		g.nonce++
 		err := app.DelegationKeeper.UndelegateFrom(ctx.WithBlockHeight(uh), &delegationtypes.DelegationOrUndelegationParams{
-			ClientChainID: 101, AssetsAddress: g.w.Assets[d.as].Addr.Bytes(), OperatorAddress: g.w.Env.Operators[d.op], StakerAddress: g.stakerAddr(d.st).Bytes(),
+			ClientChainID: g.w.Assets[d.as].Chain, AssetsAddress: g.w.Assets[d.as].Addr.Bytes(), OperatorAddress: g.w.Env.Operators[d.op], StakerAddress: g.stakerAddr(d.st).Bytes(),
 			OpAmount: amt, LzNonce: g.nonce, TxHash: g.txHash(),
 		})
 		if err != nil {
@@ -702,6 +730,31 @@ func (g *c04Gen) buildLedger(ctx sdk.Context, target int, undelHeights []int64) 
 		dls[i].amt = d.amt.Sub(amt)
 	}
 	return ctx
+}
+
+// mature runs the REAL delegation EndBlock for every height from the current one to upTo (pending undelegations whose completion
+// height is reached and that carry no hold are released: staker credited, pool / staker / delegation pending figures reduced,
+// record deleted) and returns the context at upTo+1.
+func (g *c04Gen) mature(ctx sdk.Context, upTo int64) sdk.Context {
+	app := g.w.Env.App
+	count := func() int {
+		r, _ := app.DelegationKeeper.AllUndelegations(ctx)
+		return len(r)
+	}
+	before := count()
+	for h := ctx.BlockHeight(); h <= upTo; h++ {
+		func() {
+			defer func() {
+				if r := recover(); r != nil {
+					g.cw.Count("mature.panic")
+				}
+			}()
+			app.DelegationKeeper.EndBlock(ctx.WithBlockHeight(h), abci.RequestEndBlock{Height: h})
+		}()
+	}
+	g.cw.CountN("mature.records-released", before-count())
+	g.cw.Count("mature.runs")
+	return ctx.WithBlockHeight(upTo + 1)
 }
 
 func (g *c04Gen) randomPrices(ctx sdk.Context) {
@@ -1075,6 +1128,21 @@ func runC04(a *Args) error {
 		cw.Count("directed.replay")
 	}
 
+	// (4) undelegation -> slash that cuts it -> maturity through the real delegation EndBlock -> second slash: after the release no
+	// unbonding stake of that record may be left in the value the second proportion is computed over
+	for _, target := range []int{3, 4} {
+		ctx, _ := base.CacheContext()
+		ids := &c04IDs{m: map[string]int{}}
+		ctx = ctx.WithBlockHeight(2)
+		g.buildLedger(ctx, target, []int64{12, 12, 13})
+		ctx = ctx.WithBlockHeight(15)
+		s1 := g.doCall(ctx, ids, target, 10, g.pickPower(ctx, target), sdkmath.LegacyNewDecWithPrec(5, 1), 1, "", stakingtypes.Infraction_INFRACTION_DOUBLE_SIGN)
+		ctx = g.mature(ctx, 26)
+		s2 := g.doCall(ctx, ids, target, 20, g.pickPower(ctx, target), sdkmath.LegacyNewDecWithPrec(5, 1), 1, "", stakingtypes.Infraction_INFRACTION_DOWNTIME)
+		emit([]c04Step{s1, s2}, []string{"directed-slash-maturity-slash"})
+		cw.Count("directed.slash-maturity-slash")
+	}
+
 	// ---- random cases ----
 	for cw.n < a.N {
 		ctx, _ := base.CacheContext()
@@ -1174,7 +1242,10 @@ func runC04(a *Args) error {
 			} else {
 				lastSid = strings.Join([]string{hexutil.EncodeUint64(uint64(inf)), hexutil.EncodeUint64(uint64(event))}, "_")
 			}
-			// between steps: sometimes move on, add an undelegation, change prices
+			// between steps: sometimes let the pending undelegations mature (real delegation EndBlock), move on, change prices
+			if rng.Intn(3) == 0 {
+				ctx = g.mature(ctx, ctx.BlockHeight()+11)
+			}
 			if rng.Intn(2) == 0 {
 				ctx = ctx.WithBlockHeight(ctx.BlockHeight() + int64(rng.Intn(3)))
 			}
